@@ -261,6 +261,8 @@ type verifC17State struct {
 	vip     bool
 	noReq   bool // VERIF_C17_NOREQCHECK=1: switch clause (g) off (used to show mutants are caught by (N) alone)
 	updates int
+	lastDump    []verifC17Row
+	lastDumpIdx uint64
 	stale   map[string]bool // peer/node/check of node checks reported as left behind (finding) and still there
 }
 
@@ -514,6 +516,10 @@ var verifC17SharedIndexRows = map[string]bool{
 }
 
 func (st *verifC17State) dump(f verifkit.F) []verifC17Row {
+	// the dump taken after the previous handler call is still valid if nothing was written since
+	if st.lastDump != nil && st.lastDumpIdx == st.be.idx {
+		return st.lastDump
+	}
 	var rows []verifC17Row
 	err := st.store.WalkAllTables(func(table string, item interface{}) bool {
 		r := verifC17Row{Table: table, Owner: "-"}
@@ -566,6 +572,7 @@ func (st *verifC17State) dump(f verifkit.F) []verifC17Row {
 		}
 		return rows[i].JSON < rows[j].JSON
 	})
+	st.lastDump, st.lastDumpIdx = rows, st.be.idx
 	return rows
 }
 
@@ -785,6 +792,27 @@ func verifC17Expected(peer string, s *verifC17Snap) *verifC17View {
 		}
 	}
 	return verifC17ViewOf(csns, false)
+}
+
+// verifC17DiffFields names the top-level fields in which two canonical JSON objects differ (root-cause signature).
+func verifC17DiffFields(a, b string) string {
+	var ma, mb map[string]any
+	_ = json.Unmarshal([]byte(a), &ma)
+	_ = json.Unmarshal([]byte(b), &mb)
+	d := map[string]bool{}
+	for k, v := range ma {
+		x, _ := json.Marshal(v)
+		y, _ := json.Marshal(mb[k])
+		if string(x) != string(y) {
+			d[k] = true
+		}
+	}
+	for k := range mb {
+		if _, ok := ma[k]; !ok {
+			d[k] = true
+		}
+	}
+	return strings.Join(verifC17Keys(d), ",")
 }
 
 func verifC17Keys[V any](m map[string]V) []string {
@@ -1021,7 +1049,7 @@ func (st *verifC17State) update(f verifkit.F, op verifC17Op) {
 		if _, ok := got.Svc[k]; !ok {
 			st.violation(f, "C17/instance-missing", "%s: instance %s of the snapshot is not in the catalog of peer %q", what, k, peer)
 		} else if got.Svc[k] != exp.Svc[k] {
-			st.violation(f, "C17/instance-differs", "%s: instance %s of peer %q differs from the snapshot:\n stored   %s\n received %s", what, k, peer, got.Svc[k], exp.Svc[k])
+			st.violation(f, "C17/instance-differs/"+verifC17DiffFields(got.Svc[k], exp.Svc[k]), "%s: instance %s of peer %q differs from the snapshot:\n stored   %s\n received %s", what, k, peer, got.Svc[k], exp.Svc[k])
 		}
 	}
 	for _, k := range verifC17Keys(got.Svc) {
@@ -1039,7 +1067,7 @@ func (st *verifC17State) update(f verifkit.F, op verifC17Op) {
 			if !ok {
 				st.violation(f, "C17/service-check-missing", "%s: check %s of instance %s (peer %q) is not in the catalog", what, id, k, peer)
 			} else if g != exp.SvcChecks[k][id] {
-				st.violation(f, "C17/service-check-differs", "%s: check %s of instance %s (peer %q) differs:\n stored   %s\n received %s", what, id, k, peer, g, exp.SvcChecks[k][id])
+				st.violation(f, "C17/service-check-differs/"+verifC17DiffFields(g, exp.SvcChecks[k][id]), "%s: check %s of instance %s (peer %q) differs:\n stored   %s\n received %s", what, id, k, peer, g, exp.SvcChecks[k][id])
 			}
 		}
 		for _, id := range verifC17Keys(got.SvcChecks[k]) {
@@ -1055,14 +1083,14 @@ func (st *verifC17State) update(f verifkit.F, op verifC17Op) {
 			continue // reported by (a)
 		}
 		if g != exp.Nodes[n] {
-			st.violation(f, "C17/node-differs", "%s: node %s of peer %q differs from the snapshot:\n stored   %s\n received %s", what, n, peer, g, exp.Nodes[n])
+			st.violation(f, "C17/node-differs/"+verifC17DiffFields(g, exp.Nodes[n]), "%s: node %s of peer %q differs from the snapshot:\n stored   %s\n received %s", what, n, peer, g, exp.Nodes[n])
 		}
 		for _, id := range verifC17Keys(exp.NodeChk[n]) {
 			gc, ok := got.NodeChk[n][id]
 			if !ok {
 				st.violation(f, "C17/node-check-missing", "%s: node check %s/%s (peer %q) is not in the catalog", what, n, id, peer)
 			} else if gc != exp.NodeChk[n][id] {
-				st.violation(f, "C17/node-check-differs", "%s: node check %s/%s (peer %q) differs:\n stored   %s\n received %s", what, n, id, peer, gc, exp.NodeChk[n][id])
+				st.violation(f, "C17/node-check-differs/"+verifC17DiffFields(gc, exp.NodeChk[n][id]), "%s: node check %s/%s (peer %q) differs:\n stored   %s\n received %s", what, n, id, peer, gc, exp.NodeChk[n][id])
 			}
 		}
 		// did the service have a stored instance on n that the snapshot still contains?
@@ -1254,6 +1282,16 @@ func (st *verifC17State) quiesce(f verifkit.F, op verifC17Op) {
 		}{{"instances", g.Svc, exp.Svc}, {"service-checks", g.SvcChecks, exp.SvcChecks}, {"nodes", g.Nodes, exp.Nodes}, {"node-checks", g.NodeChk, exp.NodeChk}} {
 			if a, b := verifC17Canon(part.got), verifC17Canon(part.exp); a != b {
 				key := "C17/quiescent-" + part.name + "-differ"
+				if part.name == "instances" && verifC17Canon(verifC17Keys(g.Svc)) == verifC17Canon(verifC17Keys(exp.Svc)) {
+					// same instances, different content: same signature as the per-update clause
+					fields := map[string]bool{}
+					for k := range g.Svc {
+						if g.Svc[k] != exp.Svc[k] {
+							fields[verifC17DiffFields(g.Svc[k], exp.Svc[k])] = true
+						}
+					}
+					key = "C17/instance-differs/" + strings.Join(verifC17Keys(fields), "+")
+				}
 				if part.name == "node-checks" && staleOnly {
 					key = "C17/node-check-left-behind/no-stored-instance-on-node"
 				}
